@@ -160,7 +160,24 @@ pub trait OperandHandler {
                 ident_provider,
                 ident_kind,
             );
+        } else if is_literal_sum(operand) {
+            // a sum of literals is left in place, but it still is an operand of this operation:
+            // the hook must receive it like any other literal
+            arguments.push(ident_provider.get_expr_or_spread(operand, ident_kind))
         }
+    }
+}
+
+// a literal, or a `+` chain made of literals only (nothing to propagate, nothing to evaluate twice)
+pub fn is_literal_sum(expr: &Expr) -> bool {
+    match expr {
+        Expr::Lit(_) => true,
+        Expr::Bin(binary) => {
+            binary.op == BinaryOp::Add
+                && is_literal_sum(&binary.left)
+                && is_literal_sum(&binary.right)
+        }
+        _ => false,
     }
 }
 
